@@ -1,9 +1,12 @@
 package main
 
 import (
+	"bytes"
 	"fmt"
+	"io"
 	"strconv"
 	"strings"
+	"testing/iotest"
 
 	"github.com/tormoder/fit/dyncrc16"
 )
@@ -193,6 +196,29 @@ func runC14(args []string) int {
 			}
 		}
 		parts := h.Sum16()
+		// fed through io.Copy / io.CopyN from readers with different Read behaviours (if the hasher implements
+		// io.ReaderFrom, io.Copy uses it): whole reads, one byte at a time, half reads, data together with io.EOF
+		if i%4 == 0 {
+			for fi, mk := range []func([]byte) io.Reader{
+				func(b []byte) io.Reader { return bytes.NewReader(b) },
+				func(b []byte) io.Reader { return iotest.OneByteReader(bytes.NewReader(b)) },
+				func(b []byte) io.Reader { return iotest.HalfReader(bytes.NewReader(b)) },
+				func(b []byte) io.Reader { return iotest.DataErrReader(bytes.NewReader(b)) },
+			} {
+				hc := dyncrc16.New()
+				var err error
+				if fi%2 == 0 {
+					_, err = io.Copy(hc, mk(c.data))
+				} else {
+					_, err = io.CopyN(hc, mk(c.data), int64(len(c.data)))
+				}
+				if err != nil || hc.Sum16() != whole {
+					r.specFail("feeder", fmt.Sprintf("io.Copy/io.CopyN of %d bytes into the hasher (reader kind %d) gives 0x%04x (err %v), a single write gives 0x%04x", len(c.data), fi, hc.Sum16(), err, whole),
+						map[string]interface{}{"entry": "io.Copy(dyncrc16.New(), reader)", "data_hex": hexs(c.data), "reader_kind": fi})
+				}
+			}
+			r.hist("fed_through_io_copy")
+		}
 		h2 := dyncrc16.New()
 		h2.Write(c.junk)
 		h2.Reset()
